@@ -39,8 +39,17 @@ def _same(obs, exp):
     return obs == exp and type(obs[1]) is type(exp[1])
 
 
-def _perturb(kind, vbs, db):
+def _perturb(kind, vbs, db, pdu=None):
     vbs = list(vbs)
+    if kind == "short_row":
+        # a conformant SHORT GETBULK response (RFC 3416 4.2.3: the agent may send fewer bindings when its message would
+        # grow too large): the non-repeaters and only the beginning of the first row of repetitions
+        if pdu is not None and pdu["tag"] == vber.PDU_GETBULK:
+            n = max(0, min(pdu["f1"], len(pdu["vbs"])))
+            r = len(pdu["vbs"]) - n
+            if r >= 2 and len(vbs) > n + 1:
+                vbs = vbs[:n + 1 + (len(vbs) % (r - 1))]
+        return vbs
     if kind == "add_fresh":
         vbs.append(((1, 3, 6, 1, 4, 1, 99999, 1, 0), vber.T_INT, b"\x2a"))
     elif kind == "add_dup" and vbs:
@@ -73,8 +82,12 @@ def run_case(case) -> Result:
         es, ei, vbs = agent.answer(version, pdu)
         state["plain"] = (es, ei, list(vbs))
         if es == 0 and perturb != "none":
-            vbs = _perturb(perturb, vbs, db)
-            state["perturbed"] = True
+            before = len(vbs)
+            vbs = _perturb(perturb, vbs, db, pdu)
+            if perturb != "short_row":
+                state["perturbed"] = True
+            elif len(vbs) != before:
+                state["short_row"] = True
         state["final"] = (es, ei, list(vbs))
         if version == 3:
             return agent.v3_response(req, agent.users[req["user"]], es, ei, vbs)
@@ -116,7 +129,9 @@ def run_case(case) -> Result:
         classes.add("end_of_view")
     if op in ("set", "multiset") and any(t not in (vber.T_INT, vber.T_OCTETS) for _, t, _ in setmap):
         classes.add("typed_value")
-    if perturb != "none":
+    if perturb == "short_row":
+        classes.add("bulk_response_cut_in_first_row")
+    elif perturb != "none":
         classes.add("perturbed")
     nontrivial = len(req_oids) >= 2 and bool(classes & {"duplicate", "absent", "end_of_view", "typed_value", "perturbed"})
 
@@ -314,6 +329,9 @@ def cases(draw, v3_weight=1):
         case["scalars"] = draw(st.lists(oid, min_size=0, max_size=3))
         case["repeaters"] = draw(st.lists(oid, min_size=0 if case["scalars"] else 1, max_size=3))
         case["maxrep"] = draw(st.one_of(st.integers(0, 6), st.integers(0, 6), st.sampled_from([25, 127, 128, 1000])))
+        if len(case["repeaters"]) >= 2 and draw(st.integers(0, 2)) == 0:
+            case["perturb"] = "short_row"
+            case["maxrep"] = max(1, case["maxrep"])
     return case
 
 
